@@ -319,6 +319,7 @@ package builder
 //@   ensures {C11} err == nil ==> len(fn.Comments) == cond(m.DocComment == nil, 0, len(m.DocComment.List)) && (m.DocComment != nil ==> forall(i, 0, len(fn.Comments), fn.Comments[i] == m.DocComment.List[i].Text))
 //@   ensures {C07,C10} err == nil && !bmodel.retErr(m) ==> (fn.PreProcess == nil || !fn.PreProcess.RetError) && (fn.PostProcess == nil || !fn.PostProcess.RetError)
 //@   ensures {C05,C02} err == nil ==> forall(j, 0, len(fn.Assignments), fn.Assignments[j] != nil)
+//@   ensures {C07,C01} err == nil && !bmodel.retErr(m) ==> !anyErr(fn.Assignments)
 //@   atcall build: {C02} cond(m.Opts.Reverse, $arg1 == src && $arg2 == dst && $arg0.lhsVar == *srcVar && $arg0.rhsVar == dstVar, $arg1 == dst && $arg2 == src && $arg0.lhsVar == dstVar && $arg0.rhsVar == *srcVar)
 //@   atcall buildManipulator: {C10} $arg2 == src && $arg3 == dst && $arg4 == additionalArgs && $arg5 == bmodel.retErr(m)
 //@   loop 1 invariant $k <= len(additionalArgs)
@@ -340,3 +341,13 @@ package builder
 //@ func NewFunctionBuilder(file, fset, pkg, imports) (r)
 //@   nilable file, fset, pkg
 //@   ensures {C02} fresh(r) && r.file == file && r.fset == fset && r.pkg == pkg && r.imports == imports
+
+// ---- no error value without an error result (C07, C01) ---------------------------------------------------------------------------
+
+//@ spec errAt(a gmodel.Assignment) bool =
+//@     a != nil && (gmodel.assignErr(a) || (is(a, gmodel.NestStruct) && anyErr(as(a, gmodel.NestStruct).Contents)))
+//@ spec anyErr(cs []gmodel.Assignment) bool = exists(i, 0, len(cs), errAt(cs[i]))
+//@
+//@ func returnsError(assignments) (r)
+//@   ensures {C07,C01} r == anyErr(assignments)
+//@   loop 1 invariant $k <= len(assignments) && forall(i, 0, $k, !errAt(assignments[i]))
